@@ -42,7 +42,7 @@ def PC.label : PC → String
 /-- ghost: which published list answers a finished lookup -/
 structure Wit where
   cls : Nat      -- the class looked up
-  lo  : Nat      -- index of the newest published list when the lookup started
+  lo  : Nat      -- index of the newest published list at the lookup's first shared-state line
   j   : Nat      -- index of the list its answer was computed from
   hi  : Nat      -- index of the newest published list when it returned
   deriving Repr
@@ -63,7 +63,7 @@ structure Th where
   myGen : Nat := 0                   -- `generation`
   fn    : Nat := 0                   -- `trans`
   newl  : List Entry := []           -- `registry` (register)
-  lo    : Nat := 0                   -- ghost: newest version index when the operation started
+  lo    : Nat := 0                   -- ghost: newest version index at the first shared-state line of the lookup
   outs  : List Res := []
   wits  : List Wit := []             -- ghost, one per element of `outs`
 
@@ -92,10 +92,13 @@ def stepTh (W : World) (co : Bool) (k : Nat) (g : G) (t : Th) : G × Th :=
   match t.pc with
   | .start => (g, begin W co (cur g) t.outs t.wits t.ops)
   | .cget =>
+    -- the first shared-state line of a lookup on a caching registry: the ghost `lo` is taken here
     match lookup (curClass t) g.cache with
-    | some f => (g, finishRes W co g t (some f) (cur g))
-    | none => (g, { t with pc := .gen })
-  | .gen => (g, { t with pc := .iter, myGen := g.gen, idx := 0 })
+    | some f => (g, finishRes W co g { t with lo := cur g } (some f) (cur g))
+    | none => (g, { t with pc := .gen, lo := cur g })
+  | .gen =>
+    -- (… and here when the registry does not cache)
+    (g, { t with pc := .iter, myGen := g.gen, idx := 0, lo := if co then t.lo else cur g })
   | .iter =>
     -- the first event evaluates `self._registry`; the list object is never changed afterwards
     let lst := if t.idx = 0 then g.entries else t.snap
